@@ -106,7 +106,10 @@ impl State {
                 }
             } else if let Ok((start, end)) = global_address.try_to_offset_interval() {
                 if global_memory
-                    .is_interval_readable(start as u64, end as u64 + u64::from(size))
+                    .is_interval_readable(
+                        start as u64,
+                        (end as u64).saturating_add(u64::from(size)),
+                    )
                     .ok()
                     == Some(true)
                 {
